@@ -28,7 +28,7 @@ MANIFEST = dict(
          "the path the song-only loaders finally open is directory ++ entry for an existing entry of the instrument path or module directory "
          "other than '.'/'..' and without '/' (C10_confined) and that any name containing '/' opens nothing (C10_slash_never_matches); that the "
          "Startrekker/Magnetic Fields companion names are siblings of the module file and are not looked for without a path "
-         "(C10_companion_flt/_mfp/_none, C10_dirbase); that a helper program is started only for path loads of files not shorter than libxmp_decrunch's minimum (generated constant) with MO3/Rar "
+         "(C10_companion_flt_partial/_full, C10_companion_mfp/_none, C10_dirbase; for code that formats the Startrekker companion name without a length test C10_companion_flt_counterexample exhibits the truncated-path escape); that a helper program is started only for path loads of files not shorter than libxmp_decrunch's minimum (generated constant) with MO3/Rar "
          "signature not claimed by a built-in depacker, with the fixed argv holding the file name as one element (C10_exec, "
          "C10_exec_only_for_paths, C10_argv_single_argument). The premise that these are the only ways a path reaches the OS is the generated "
          "table of every open/stat/opendir/mkstemp/unlink/fork/exec call site of the compiled sources (clang AST of all translation units, "
@@ -47,7 +47,7 @@ MANIFEST = dict(
 NS = "Xmp.PathSafe."
 REQUIRED = [NS + t for t in (
     "C10_sanitised", "C10_confined", "C10_slash_never_matches", "C10_no_dir_no_open", "C10_dirbase",
-    "C10_companion_flt", "C10_companion_mfp", "C10_companion_none", "C10_exec", "C10_exec_only_for_paths",
+    "C10_companion_flt_partial", "C10_companion_flt_full", "C10_companion_flt_counterexample", "C10_companion_mfp", "C10_companion_none", "C10_exec", "C10_exec_only_for_paths",
     "C10_argv_single_argument", "C10_sites_guarded", "C10_fields_guarded", "C10_argv_tie")]
 
 
@@ -77,7 +77,7 @@ def names_correspondence(ck):
     shards = [(exe, ck.seed * 104729 + i, per, os.path.join(base, "s%d" % i)) for i in range(nshards)]
     results = vlib.pmap(run_names_shard, shards)
     shutil.rmtree(base, ignore_errors=True)
-    stats = {}
+    stats, nbad = {}, {}
     for (rc, out, err), sh in zip(results, shards):
         if rc != 0:
             sig = vlib.sanitizer_signature(err)
@@ -105,12 +105,16 @@ def names_correspondence(ck):
                 ck.sample({"case": c[:160], "real": e[:100]}, limit=6)
             if mo is not None:
                 if mo[i] != e:
-                    ck.unproved("correspondence PathSafe.%s vs C" % kind,
-                                "case `%s`: real=`%s` model=`%s`" % (c[:400], e[:200], mo[i][:200]))
+                    nbad[kind] = nbad.get(kind, 0) + 1
+                    if nbad[kind] <= 3:
+                        ck.unproved("correspondence PathSafe.%s vs C" % kind,
+                                    "case `%s`: real=`%s` model=`%s`" % (c[:400], e[:200], mo[i][:200]))
                 else:
                     ck.cov["traces_validated_against_impl"] += 1
     for k, v in sorted(stats.items()):
         ck.note(k, v)
+    for k, v in sorted(nbad.items()):
+        ck.note("names_%s_disagreements" % k, v)
 
 
 def run(ck):
